@@ -55,23 +55,27 @@ type Client struct {
 	stalled bool
 	closed  bool
 
-	wq     []wreq
-	wcond  *sync.Cond
-	wmu    sync.Mutex
-	wstop  bool
-	wdone  chan struct{}
-	rdone  chan struct{}
+	wq    []wreq
+	wcond *sync.Cond
+	wmu   sync.Mutex
+	wstop bool
+	wdone chan struct{}
+	rdone chan struct{}
 
 	// AutoAck makes the client acknowledge received PUBLISH (QoS 1/2) and
 	// PUBREL packets by itself.
 	AutoAck bool
 	// OnPacket, if set, is called by the reader for every packet (before it
-	// is put into the inbox). It must not block.
-	OnPacket func(p *codec.Packet)
+	// is put into the inbox). It must not block. Returning true consumes the
+	// packet (it is not stored in the inbox).
+	OnPacket func(p *codec.Packet, off int64) bool
+	// AutoRel makes the client answer every PUBREC with a PUBREL (sender side
+	// of QoS 2 for publishers that do not wait for acks).
+	AutoRel bool
 
-	parser   codec.Parser
-	RxBytes  int64
-	TxBytes  int64
+	parser  codec.Parser
+	RxBytes int64
+	TxBytes int64
 }
 
 // New wraps a connection and starts the reader and writer goroutines.
@@ -105,14 +109,20 @@ func (c *Client) reader() {
 			c.mu.Lock()
 			c.RxBytes += int64(n)
 			for _, p := range pkts {
+				consumed := false
 				if c.OnPacket != nil {
-					c.OnPacket(p)
+					consumed = c.OnPacket(p, off)
 				}
-				c.inbox = append(c.inbox, Rx{P: p, Seq: c.nrx, At: now, Off: off})
+				if !consumed {
+					c.inbox = append(c.inbox, Rx{P: p, Seq: c.nrx, At: now, Off: off})
+				}
 				off += int64(len(codec.Encode(p)))
 				c.nrx++
 				if c.AutoAck {
 					c.autoAck(p)
+				}
+				if c.AutoRel && p.Type == codec.PUBREC {
+					c.enqueue(codec.Encode(&codec.Packet{Type: codec.PUBREL, PacketID: p.PacketID}), nil)
 				}
 			}
 			if c.parser.Err != nil && c.parseEr == nil {
